@@ -10,7 +10,7 @@ EXTENDS CircuitGen, Clauses
 MCView == <<heap, tops, sealed, env>>
 WF == WellFormed(heap)
 SnapOK == \A c \in tops : heap[c].home = None =>
-             ObsClauses(heap, env, c, SpecSnapshot(heap, env, c), c \in sealed) = {}
+             ObsClauses(heap, env, c, SpecSnapshot(heap, env, c), [applied |-> c \in sealed, implicit |-> FALSE]) = {}
 
 Key(H, i) == <<H[i].kind, H[i].qs, H[i].dur, H[i].tag>>
 CountKey(H, c, k) == Cardinality({i \in Range(LeavesOf(H, c)) : Key(H, i) = k})
